@@ -136,3 +136,14 @@ VARIANTS += [
  dict(name='failure-exit-closure-returns-nil', file=V, expect='flagged(consistency/(*ngo/verifier.verifier).Verify)', find=FC_OLD, replace=fc('\t\toutcome.Error = err\n\t\treturn outcome, nil\n')),
  dict(name='failure-exit-closure-returns-fresh-outcome', file=V, expect='flagged(consistency/(*ngo/verifier.verifier).Verify)', find=FC_OLD, replace=fc('\t\toutcome.Error = err\n\t\treturn &notation.VerificationOutcome{Error: err}, err\n')),
 ]
+
+# the outcome made by a constructor and every exit concluded by a helper that records the error
+NO_OLD = '\terr = v.processSignature(ctx, signature, envelopeMediaType, trustPolicy.Name, trustPolicy.TrustedIdentities, trustPolicy.TrustStores, trustPolicy.SignatureVerification, pluginConfig, outcome)\n\n\tif err != nil {\n\t\toutcome.Error = err\n\t\treturn outcome, err\n\t}\n'
+NO_NEW = '\terr = v.processSignature(ctx, signature, envelopeMediaType, trustPolicy.Name, trustPolicy.TrustedIdentities, trustPolicy.TrustStores, trustPolicy.SignatureVerification, pluginConfig, outcome)\n\n\tif err != nil {\n\t\treturn conclude(outcome, err)\n\t}\n'
+def conclude(body):
+    return (V, 'func verifyX509TrustedIdentities(', 'func conclude(outcome *notation.VerificationOutcome, err error) (*notation.VerificationOutcome, error) {\n' + body + '}\n\nfunc verifyX509TrustedIdentities(')
+VARIANTS += [
+ dict(name='benign-exit-concluded-by-helper', file=V, expect='silent', find=NO_OLD, replace=NO_NEW, edits=[conclude('\toutcome.Error = err\n\treturn outcome, err\n')]),
+ dict(name='conclude-helper-does-not-record', file=V, expect='flagged(consistency/(*ngo/verifier.verifier).Verify)', find=NO_OLD, replace=NO_NEW, edits=[conclude('\treturn outcome, err\n')]),
+ dict(name='conclude-helper-returns-nil-error', file=V, expect='flagged(consistency/(*ngo/verifier.verifier).Verify)', find=NO_OLD, replace=NO_NEW, edits=[conclude('\toutcome.Error = err\n\treturn outcome, nil\n')]),
+]
